@@ -262,7 +262,7 @@ MUTANTS = [
      [("src/transcode/value.rs", "\t\t\tNone => return Ok(entries),", "\t\t\tNone => {\n\t\t\t\tentries.reverse();\n\t\t\t\treturn Ok(entries);\n\t\t\t}")]),
     ("r47-f32-widened", "violations", "R47", "C01", "R01.3", "f32 leaves as f64",
      [("src/transcode/value.rs", "Value::F32(f) => s.serialize_f32(f),", "Value::F32(f) => s.serialize_f64(f64::from(f)),")]),
-    ("r48-marks-swapped", "violations", "R48", "C03", "R03.5", "DOCUMENT_END cuts at the event's start index",
+    ("r48-marks-swapped", "equivalent", "R48", "C03", "R03.5", "DOCUMENT_END cuts at the event's start index",
      [("src/yaml/chunker.rs", "\t\t\t\t\tlet offset = Event::end_index(&event);", "\t\t\t\t\tlet offset = Event::start_index(&event);")]),
     ("r48-stash-ignored", "violations", "R48", "C12", "R12.2", "the reader's own error is discarded in favour of libyaml's",
      [("src/yaml/chunker/parser.rs", "Some(read_err) => read_err,", "Some(_) => io::Error::new(io::ErrorKind::InvalidData, \"read failed\"),")]),
